@@ -76,6 +76,47 @@ V('c17-ackfin-any', 'C17', T,
   """                if sent_fin && self.tx_buffer.len() + 1 == ack_len {""",
   """                if sent_fin && self.tx_buffer.len() < ack_len {""", 'R17.3')
 
+E = 'src/iface/interface/ethernet.rs'
+I4 = 'src/iface/interface/ipv4.rs'
+I6 = 'src/iface/interface/ipv6.rs'
+IT = 'src/iface/interface/tcp.rs'
+IU = 'src/iface/interface/udp.rs'
+V('c11-eth-filter-wrong-field', 'C11', E,
+  """HardwareAddress::Ethernet(eth_frame.dst_addr()) != self.hardware_addr""",
+  """HardwareAddress::Ethernet(eth_frame.src_addr()) != self.hardware_addr""", 'R11.1')
+V('c11-ipv6-filter-wrong-field', 'C11', I6,
+  """        if !self.has_ip_addr(ipv6_repr.dst_addr)
+            && !self.has_multicast_group(ipv6_repr.dst_addr)""",
+  """        if !self.has_ip_addr(ipv6_repr.src_addr)
+            && !self.has_multicast_group(ipv6_repr.dst_addr)""", 'R11.2')
+V('c11-icmpv4-reply-nonunicast-src', 'C11', I4,
+  """        if !self.is_unicast_v4(ipv4_repr.src_addr) {
+            // Do not send ICMP replies to non-unicast sources
+            None
+        } else if self.is_unicast_v4(ipv4_repr.dst_addr) {""",
+  """        if self.is_unicast_v4(ipv4_repr.dst_addr) {""", 'R11.4')
+V('c11-rst-to-rst', 'C11', IT,
+  """        if tcp_repr.control == TcpControl::Rst
+            || ip_repr.dst_addr().is_unspecified()""",
+  """        if ip_repr.dst_addr().is_unspecified()""", 'R11.5')
+V('c11-tcp-subnet-broadcast', 'C11', IT,
+  """IpAddress::Ipv4(addr) => addr.x_is_unicast() && !self.is_broadcast_v4(addr),""",
+  """IpAddress::Ipv4(addr) => addr.x_is_unicast(),""", 'R11.4')
+V('c11-icmp-socket-no-accepts', 'C11', I4,
+  """            if icmp_socket.accepts_v4(self, &ip_repr, &icmp_repr) {""",
+  """            if handled_by_icmp_socket || icmp_socket.accepts_v4(self, &ip_repr, &icmp_repr) {""", 'R11.3')
+V('c11-udp6-multicast-error', 'C11', IU,
+  """            IpRepr::Ipv6(ipv6_repr) if ipv6_repr.dst_addr.is_multicast() => None,""",
+  """            IpRepr::Ipv6(ipv6_repr) if ipv6_repr.src_addr.is_multicast() => None,""", 'R11.4')
+S('silent-ipv4-filter-helper', ['C11'], I4,
+  """        if !self.has_ip_addr(ipv4_repr.dst_addr)
+            && !self.has_multicast_group(ipv4_repr.dst_addr)
+            && !self.is_broadcast_v4(ipv4_repr.dst_addr)
+        {""",
+  """        let dst = ipv4_repr.dst_addr;
+        let for_us = self.has_ip_addr(dst) || self.has_multicast_group(dst) || self.is_broadcast_v4(dst);
+        if !for_us {""", 'destination filter computed into a local bool first')
+
 S('silent-tcp-rename-local', ['C17'], T,
   """        let mut ack_of_fin = false;""",
   """        let mut ack_of_fin = false; let _unused_marker = 0u8;""", 'adds an unused local')
